@@ -6,6 +6,7 @@ import random
 
 import common as C
 import c09
+import c18_commit
 import hist
 import progs as P
 import values as V
@@ -121,6 +122,11 @@ def spec_graph(prog, call, keep_callee_is_reference=False):
         kept_paths.add(root_path)
     walk(mod, name, root_path, set())
     return kept_paths, loaded, solid, dashed
+
+
+def tree_paths(t):
+    """The store paths of an interaction tree as the drivers dump it: [signature, path, n args, loads, children]."""
+    return sorted({t[1]} - {None} | {p for c in t[4] for p in tree_paths(c)})
 
 
 def has_cycle(edges):
@@ -546,16 +552,26 @@ def run(rep, tier, seed, proof_ok):
     per_class, n_mixed = (1, 0) if tier == "quick" else (4, 40)
     n_alpha = per_class * len(PATH_CLASSES)
     n_drawn = (2 if tier == "quick" else 12) * len(PATH_CLASSES)
+    family = c18_commit.nested_family()
     rep.rule = (f"{n} random pipelines (nesting, shared sub-nodes, keeps with run-time arguments) plus the load scenarios of C09 (placement x "
-                "producer) evaluated with dds_export_graph (plain format) on a memory store: the exported nodes and styled edges are "
+                f"producer) plus {len(family)} shapes in which the analysis reaches one path several times under different signatures (a keep nested in the callee of another keep: run-time / literal "
+                "arguments on either level, three levels, a nested data function, the entry point's argument by keyword, the nested path loaded by a later keep, the callee called directly before it "
+                "is kept, the callee kept under two paths) evaluated with dds_export_graph (plain format) on a memory store: the exported nodes and styled edges are "
                 "parsed back and compared with the Coq model of _structure and with the specification graph computed from the program "
                 "(kept paths + paths loaded by kept functions as nodes; solid = reaches the keep without crossing a kept function; "
                 "dashed = loads; remaining edges must be dotted and join sibling keeps); result and signatures are compared with the "
-                f"same evaluation without export; {n_st} of the random pipelines and all the others are exported again in other states of the store at export time (the same pipeline "
+                f"same evaluation without export; {n_st} of the random pipelines and all the others{' (a third of the nested-keep shapes)' if tier == 'quick' else ''} are exported again in other states of the store at export time (the same pipeline "
                 "evaluated / exported before = all blobs present, with dds_extra_debug=True or the option extra_debug=False; another pipeline sharing sub-nodes (a function "
                 "below the entry point) evaluated before; the same entry point evaluated before with other arguments; an edited variant (kept leaf / middle function / "
                 "variable / literal / helper / entry point) evaluated before on the same local store by another process = partly populated): graph, result and "
-                f"signatures must equal those of the fresh store; the alphabet of the paths: {n_alpha} of the pipelines that pass the checks above with their own paths and have at least two nodes (random ones and load scenarios alternating) are evaluated and exported "
+                "signatures must equal those of the fresh store; what the exported evaluation leaves in the store: for "
+                + ("the first nested-keep shape (every history), the other shapes, every second pipeline of the corpus and every fourth of the others (two histories each, by rotation)" if tier == "quick"
+                   else f"{n_st} of the random pipelines (two histories each, by rotation) and all the others (every history)") +
+                f", {len(c18_commit.VARIANTS)} histories on a local store in which some evaluations request the graph (an exported evaluation alone; stopped after the analysis stage, then a plain "
+                "evaluation; a plain evaluation then the exported one and the reverse, in one process and in two processes; with and without dds_extra_debug) are compared with the same history without "
+                "dds_export_graph on another store: evaluation by evaluation the result, the execution log, the blobs stored (key, value) and the map given to sync_paths; afterwards the raw links of "
+                "the data directory (path -> key) and the keys of the blob directory read without dds, and dds.load of every store path of the program from a fresh process (value and key fetched) "
+                f"must be the same; the alphabet of the paths: {n_alpha} of the pipelines that pass the checks above with their own paths and have at least two nodes (random ones and load scenarios alternating) are evaluated and exported "
                 f"again with every store path renamed to a path of one of {len(PATH_CLASSES)} classes of characters special to the dot language, to the plain format or to pydot's handling of names (double quote, "
                 "quoted word, backslash alone / doubled / before a letter / before a quote / at the very end, colon, comma, semicolon, space, tab, ->, --, braces, angle brackets, |, #, %, &, =[], single quote, "
                 "unicode, /* */, empty segment, a segment that is a dot keyword or a number, a name longer than an output line), the special text in the only / first / middle / last segment and at the start / "
@@ -589,6 +605,9 @@ def run(rep, tier, seed, proof_ok):
         call = {"a": "call", "mod": "m0", "fn": "root", "style": "eval", "pos": [], "kw": []}
         pre = [{"a": "call", "mod": "m0", "fn": "prod", "style": "keep", "path": "/p", "pos": [], "kw": []}]
         jobs.append({"prog": prog, "call": call, "pre": pre, "load_scenario": f"{placement}/alias-of-earlier-evaluation"})
+    # one path analysed under several signatures (the shapes of F23 / F24 and their neighbours)
+    for name, prog, call in family:
+        jobs.append({"prog": prog, "call": call, "pre": [], "corpus": "nested-keeps:" + name})
     # the state of the store at export time (quick: every pipeline gets the fully populated state and a rotation of the others)
     scs = []
     for i, job in enumerate(jobs):
@@ -596,8 +615,19 @@ def run(rep, tier, seed, proof_ok):
     n_state_pipelines = len(jobs) - n + n_st
     for i, job in enumerate(jobs[-n_state_pipelines:]):
         bi = len(jobs) - n_state_pipelines + i
+        if tier == "quick" and job.get("corpus", "").startswith("nested-keeps:") and bi % 3:
+            continue
         for sc in store_state_scenarios(job, bi, tier, random.Random(seed * 7919 + bi)):
             scs.append(dict(sc, base=bi))
+    # what the exported evaluation leaves in the store (c18_commit.py): histories with exports against the same histories without
+    # (quick: every history for the first nested-keep shape, two histories by rotation for the other shapes, for every second
+    # pipeline of the corpus and every fourth of the others; otherwise every history, two by rotation for the random pipelines)
+    ccs = []
+    for i, job in enumerate(jobs[-n_state_pipelines:]):
+        bi = len(jobs) - n_state_pipelines + i
+        nested = job.get("corpus", "").startswith("nested-keeps:")
+        if tier != "quick" or nested or bi % (2 if "corpus" in job else 4) == 0:
+            ccs += c18_commit.scenarios(job, bi, full=(tier != "quick" and bi >= n) or job.get("corpus") == "nested-keeps:" + family[0][0])
     # the alphabet of the paths: pipelines (of the random ones and of the load scenarios, alternating) that pass with their
     # own paths, with their paths renamed; quick: one pipeline per class of characters, otherwise several, plus pipelines
     # whose paths are of different classes.  For a class, the next pipeline in which the renaming reaches at least two nodes.
@@ -629,11 +659,13 @@ def run(rep, tier, seed, proof_ok):
     with cf.ThreadPoolExecutor(max_workers=C.NPROC) as ex:
         fut = [ex.submit(one, j) for j in jobs]
         sfut = [ex.submit(run_state, sc) for sc in scs]
+        cfut = [ex.submit(c18_commit.run_group, g) for g in c18_commit.grouped(ccs)]
         res = [f.result() for f in fut]
         ajobs = alphabet_jobs({r["job"]["idx"] for r in res if passes_alone(r)})
         afut = [ex.submit(one, j) for j in ajobs]
         sres = [f.result() for f in sfut]
         ares = [f.result() for f in afut]
+        cres = [x for f in cfut for x in f.result()]
     good =[r for r in res if "error" not in r and r["rec"]["impl"]["out"].startswith("ok:")]
     exprs = []
     for r in good:
@@ -650,6 +682,7 @@ def run(rep, tier, seed, proof_ok):
         exprs.append(f"run_export {term} {hist.style_coq(job['call'])} {pos} {kw} {pc}")
     model = C.coq_eval_strings(PRELUDE, exprs, label="c18")
     sizes = {}
+    two_sig_pipelines = set()   # pipelines in which (by the model) a path is analysed under several signatures
     fresh = {}          # pipeline index -> what the export on the fresh store gave
     for r, m in zip(good, model):
         job = r["job"]
@@ -664,7 +697,11 @@ def run(rep, tier, seed, proof_ok):
         sizes[len(nodes)] = sizes.get(len(nodes), 0) + 1
         # 1. does not perturb
         if r["rec"]["impl"]["out"] != r["ctl"]["impl"]["out"] or hist.impl_obs(r["rec"])["sigs"] != hist.impl_obs(r["ctl"])["sigs"]:
-            rep.violation("export-perturbs", "result or signatures differ with and without dds_export_graph", rep_job)
+            a, b = [dict(x.split("=") for x in (hist.impl_obs(y)["sigs"] or "").split(",") if x) for y in (r["rec"], r["ctl"])]
+            rep.violation("export-perturbs", f"entry {job['call']['mod']}.{job['call']['fn']}" + (f" ({job['corpus']})" if "corpus" in job else "") + " on a memory store: "
+                          + ("the result differs" if r["rec"]["impl"]["out"] != r["ctl"]["impl"]["out"] else "the signatures given to sync_paths differ: "
+                             + ", ".join(f"{p} -> {str(a.get(p))[:10]}.. (without export {str(b.get(p))[:10]}..)" for p in sorted(set(a) | set(b)) if a.get(p) != b.get(p)))
+                          + " with and without dds_export_graph", rep_job)
         # 2. model
         two_sigs = []
         if m.startswith("ok:"):
@@ -675,6 +712,8 @@ def run(rep, tier, seed, proof_ok):
                     pth, sg = x.split("=")
                     by_path.setdefault(pth, set()).add(sg)
             two_sigs = sorted(pth for pth, sgs in by_path.items() if len(sgs) > 1)
+            if two_sigs:
+                two_sig_pipelines.add(job["idx"])
             mnodes = set(x for x in mn.split(",") if x)
             medges = set()
             for e in me.split(","):
@@ -750,6 +789,10 @@ def run(rep, tier, seed, proof_ok):
                               f"{where}: the exported graph differs from the graph of the same pipeline exported on a fresh store: missing nodes {sorted(base['nodes'] - nodes)[:3]} "
                               f"extra nodes {sorted(nodes - base['nodes'])[:3]} missing edges {sorted(base['edges'] - edges)[:4]} extra edges {sorted(edges - base['edges'])[:4]}",
                               dict(rj, nodes=sorted(nodes), edges=sorted(edges)))
+    # 4b. what the exported evaluation leaves in the store: the same as the same history without export
+    commit = {"pipelines": len({sc["base"] for sc in ccs}), "histories": 0, "by_history": {}, "paths_loaded_from_a_fresh_process": 0, "nested_keep_shapes": len(family)}
+    c18_commit.check(rep, cres, jobs, commit)
+    commit["pipelines_with_a_path_analysed_under_several_signatures"] = len({sc["base"] for sc in ccs} & two_sig_pipelines)
     # 5. the alphabet of the paths: the pipelines that pass with their own paths, with renamed paths
     alpha = {"pipelines": len(ajobs), "checked": 0, "not_evaluated_with_these_paths": 0, "by_class": {}, "renamed_paths": 0,
              "paths_by_segment": {}, "paths_by_place_in_segment": {}, "paths_by_role": {}, "paths_by_spelling": {}}
@@ -783,6 +826,14 @@ def run(rep, tier, seed, proof_ok):
                       {"fuzz": True, "tree": cy["tree"], "edges": cy["edges"]})
     for er in fz["errors"]:
         rep.violation("export-fails:fuzzed-interaction-tree", f"the real _structure raises {er['error']}", {"fuzz": True, "tree": er["tree"]})
+    if "unsupported" in fz:
+        rep.violation("harness-error:c18-structure-signature", fz["unsupported"], {"fuzz": True}, no_input=True)
+    for mu in fz.get("mutated", []):
+        tb, pth, was, now = mu["changed"][0]
+        rep.violation("export-writes-into-the-tables-of-the-evaluation:fuzzed-interaction-tree",
+                      f"the real _structure, given the tables dds.eval has for an interaction tree (kept paths {tree_paths(mu['tree'])[:6]}), "
+                      f"does not leave them as they are: {tb}[{pth}] was {was} and is {now} afterwards (the evaluation commits store_paths after the export)",
+                      {"fuzz": True, "tree": mu["tree"], "changed": mu["changed"]})
 
     # the alphabet of the paths, below the analysis: interaction trees whose paths are of one class, drawn by the real
     # draw_graph; the file read back must be the graph the real _structure gives (all three styles of edges)
@@ -795,6 +846,11 @@ def run(rep, tier, seed, proof_ok):
     alpha["drawn_interaction_trees"] = len(rres)
     for spec, rr in zip(rtrees, rres):
         check_drawn(rep, spec["class"], rr)
+        if rr.get("mutated"):
+            tb, pth, was, now = rr["mutated"][0]
+            rep.violation("export-writes-into-the-tables-of-the-evaluation:drawn-interaction-tree",
+                          f"the real draw_graph, given the tables dds.eval has for an interaction tree with the paths {json.dumps(sorted(set(rr.get('nodes', []))), ensure_ascii=False)[:200]}, "
+                          f"does not leave them as they are: {tb}[{pth}] was {was} and is {now} afterwards", {"drawn": True, "class": spec["class"], "tree": rr["tree"], "names": rr["names"], "present": rr["present"]})
         if "plain" in rr:
             rep.case("drawn:" + json.dumps(rr["tree"])[:300], nontrivial=len(rr["nodes"]) >= 2)
 
@@ -813,8 +869,9 @@ def run(rep, tier, seed, proof_ok):
             rep.violation("model-mismatch:graph-fuzz", "the real _structure and its Coq model differ on a fuzzed interaction tree",
                           {"fuzz": True, "tree": smp["tree"], "impl_nodes": smp["nodes"], "impl_edges": smp["edges"], "model": m})
     rep.extra["input_distribution"] = {"pipelines": len(jobs), "graphs_by_number_of_nodes": sizes, "store_state_histories": len(scs),
-                                       "exports_by_store_state": dict(states, fresh=len(good)), "fuzzed_interaction_trees": fz["trees"],
-                                       "fuzzed_trees_compared_with_model": len(fz["sample"]), "path_alphabet": alpha}
+                                       "exports_by_store_state": dict(states, fresh=len(good)), "fuzzed_interaction_trees": fz["trees"], "fuzzed_trees_with_a_path_under_two_signatures": fz.get("trees_two_signatures", 0),
+                                       "fuzzed_trees_compared_with_model": len(fz["sample"]), "path_alphabet": alpha,
+                                       "store_after_export": commit}
     if good:
         rep.sample({"entry": good[0]["job"]["call"], "graph": good[0]["rec"]["impl"].get("graph", "")[:300]})
 
@@ -829,9 +886,18 @@ def _tuples(events):
 
 def replay(path):
     r = json.load(open(path))["replay"]
+    if r.get("fuzz") and r.get("changed"):
+        # the tree is given again to the real draw_graph (which calls _structure), with the tables dds.eval has for it
+        rr = C.run_driver("drive_graphrender.py", {"seed": 0, "trees": [{"tree": r["tree"], "names": tree_paths(r["tree"]), "present": False}]})[0]
+        print("tree:", json.dumps(r["tree"])[:2000])
+        print("tables of the evaluation changed by the export [table, path, before, after]:", rr.get("mutated") or rr.get("draw_error") or rr.get("structure_error") or "none")
+        print("REPRODUCED" if rr.get("mutated") else "not reproduced")
+        return 1 if rr.get("mutated") else 0
     if r.get("fuzz"):
         print("fuzzed interaction tree: re-run drive_graphfuzz.py with the recorded seed; tree:", json.dumps(r["tree"])[:2000])
         return 1
+    if r.get("commit"):
+        return c18_commit.replay(r)
     if r.get("drawn"):
         rr = C.run_driver("drive_graphrender.py", {"seed": 0, "trees": [{"tree": r["tree"], "names": r["names"], "present": r["present"]}]})[0]
         rep = C.Report("C18", "replay", 0)
@@ -841,8 +907,10 @@ def replay(path):
         print("file read back     :", rr.get("draw_error") or [sorted(x) for x in parse_plain(rr.get("plain", ""))])
         for v in rep.violations:
             print("  ", v["what"][:400])
-        print("REPRODUCED" if diffs else "not reproduced")
-        return 1 if diffs else 0
+        if rr.get("mutated"):
+            print("tables of the evaluation changed by the export [table, path, before, after]:", rr["mutated"])
+        print("REPRODUCED" if diffs or rr.get("mutated") else "not reproduced")
+        return 1 if diffs or rr.get("mutated") else 0
     if "events" in r:
         # a store-state scenario: the history is run again, and the same pipeline is exported on a fresh store
         got = run_state({"events": _tuples(r["events"]), "store": r["store"], "options": r["options"]})
